@@ -89,7 +89,7 @@ func c08Rules(p *Prog) *RuleSet {
 			}},
 			// sqlite
 			equal("token-mac-eq", "hmac.Equal(token MAC, MAC recomputed over the session id under the store's secret) is true",
-				provAnd(hasProv("call:encoding/base64.Encoding.DecodeString"), func(m *Matcher, v ssa.Value) bool { return !filledBySum(m, v) }), filledBySum),
+				provAnd(hasProvX("call:encoding/base64.Encoding.DecodeString"), func(m *Matcher, v ssa.Value) bool { return !filledBySum(m, v) }), filledBySum),
 			boolTrue("session-ok", "sessionID reported a valid token", func(n string) bool { return n == "fdo/sqlite.DB.sessionID" }, 1, nil),
 		},
 		Derive: []Derivation{
